@@ -45,6 +45,14 @@ impl FlexiLogger {
     }
 }
 
+// Extracts the names of the addressed writers from a target like "{Alert,_Default}".
+// The closing brace might be missing, and the content can be anything, so we must not slice
+// at assumed positions.
+fn addressed_writers(target: &str) -> Vec<&str> {
+    let list = target.strip_prefix('{').unwrap_or(target);
+    list.strip_suffix('}').unwrap_or(list).split(',').collect()
+}
+
 impl log::Log for FlexiLogger {
     //  If other writers are configured and the metadata target addresses them correctly,
     //      - we should determine if the metadata-level is digested by any of the writers
@@ -59,7 +67,7 @@ impl log::Log for FlexiLogger {
 
         if !self.other_writers.is_empty() && target.starts_with('{') {
             // at least one other writer is configured _and_ addressed
-            let targets: Vec<&str> = target[1..(target.len() - 1)].split(',').collect();
+            let targets = addressed_writers(target);
             for t in targets {
                 if t != "_Default" {
                     match self.other_writers.get(t) {
@@ -85,7 +93,7 @@ impl log::Log for FlexiLogger {
         let special_target_is_used = target.starts_with('{');
         if special_target_is_used {
             let mut use_default = false;
-            let targets: Vec<&str> = target[1..(target.len() - 1)].split(',').collect();
+            let targets = addressed_writers(target);
             for t in targets {
                 if t == "_Default" {
                     use_default = true;
